@@ -37,7 +37,7 @@ def goodOp (op : Op) : Bool :=
 
 theorem modelStep_sub_rroot (mt : MemTopics) (f : List UInt8) (q s : Nat) :
     (modelStep mt (.sub f q s)).1.rroot = mt.rroot := by
-  cases hd : checkSys f with
+  cases hd : checkTopic f with
   | true => rw [modelStep_sub_sys _ _ _ _ hd]
   | false =>
     simp only [modelStep, subscribe_of_not_sys _ _ _ _ _ hd, SNode.sinsert]
@@ -48,22 +48,22 @@ theorem modelStep_sub_rroot (mt : MemTopics) (f : List UInt8) (q s : Nat) :
 
 theorem modelStep_unsub_rroot (mt : MemTopics) (f : List UInt8) (s : Nat) :
     (modelStep mt (.unsub f s)).1.rroot = mt.rroot := by
-  cases hd : checkSys f with
+  cases hd : checkTopic f with
   | true => rw [modelStep_unsub_sys _ _ _ hd]
   | false => simp [modelStep, unsubscribe_of_not_sys _ _ _ hd, SNode.sremove]
 
 theorem modelStep_unsubAll_rroot (mt : MemTopics) (f : List UInt8) :
     (modelStep mt (.unsubAll f)).1.rroot = mt.rroot := by
-  cases hd : checkSys f with
+  cases hd : checkTopic f with
   | true => rw [modelStep_unsubAll_sys _ _ hd]
   | false => simp [modelStep, unsubscribe_of_not_sys _ _ _ hd, SNode.sremove]
 
 theorem modelStep_retain_rroot (mt : MemTopics) (t : List UInt8) (q : Nat) (p : List UInt8)
-    (hd : checkSys t = false) :
+    (hd : checkTopic t = false) :
     (modelStep mt (.retain t q p)).1.rroot =
       if p.isEmpty then (mt.rroot.rremoveL (levels t).1 (levels t).2).1
       else mt.rroot.rinsertL (levels t).1 (levels t).2 { topic := t, qos := q, payload := p } := by
-  have hd' : checkSys ({ topic := t, qos := q, payload := p } : RMsg).topic = false := hd
+  have hd' : checkTopic ({ topic := t, qos := q, payload := p } : RMsg).topic = false := hd
   simp only [modelStep, retain_of_not_sys _ _ hd', RNode.rremove, RNode.rinsert]
   cases p.isEmpty <;> rfl
 
@@ -133,7 +133,7 @@ theorem step_rinv (mt : MemTopics) (rets : List Ret) (op : Op) (hg : goodOp op =
     obtain ⟨hgt, hn⟩ := hg
     have hd : dollar t = false := good_not_dollar t hgt
     obtain ⟨e1, e2⟩ := levels_valid t hgt (validName_validFilter t hn)
-    rw [modelStep_retain_rroot _ _ _ _ (good_checkSys t hgt), e1, e2]
+    rw [modelStep_retain_rroot _ _ _ _ (good_checkTopic t hgt), e1, e2]
     simp only [specRets, hd, hn, Bool.not_true, Bool.or_self, Bool.false_eq_true, ↓reduceIte]
     cases hp : p.isEmpty with
     | true =>
@@ -168,30 +168,44 @@ theorem run_rinv (ops : List Op) (hg : ∀ op ∈ ops, goodOp op = true) :
   apply run_rinv_aux ops _ _ hg
   exact ⟨RWF_empty, by simp [MemTopics.new, absR_empty, absRets, Mqtt.Spec.TopicStore.empty]⟩
 
-/-! ### histories that also contain topics beginning with '$' -/
+/-! ### histories that also contain topics beginning with '$' and the empty topic -/
 
-/-- an operation the retained refinement admits: no empty level; a retained
-topic is a valid name (it may begin with '$': then both sides ignore it) -/
+/-- an operation the retained refinement admits: no empty level, or the empty
+topic (which every entry point refuses and the specification ignores); a
+retained topic is a valid name or empty (it may begin with '$': then both sides
+ignore it) -/
 def okOp (op : Op) : Bool :=
-  noEmptyLevel (opTopic op) && (match op with | .retain t _ _ => validName t | _ => true)
+  admitted (opTopic op) && (match op with | .retain t _ _ => validName t || t.isEmpty | _ => true)
 
 theorem goodOp_okOp (op : Op) (h : goodOp op = true) : okOp op = true := by
   simp only [goodOp, okOp, Bool.and_eq_true] at h ⊢
-  exact ⟨good_noEmptyLevel _ h.1, h.2⟩
+  refine ⟨admitted_of_noEmptyLevel _ (good_noEmptyLevel _ h.1), ?_⟩
+  cases op <;> simp_all
 
 theorem modelStep_retain_sys (mt : MemTopics) (t : List UInt8) (q : Nat) (p : List UInt8)
-    (hd : checkSys t = true) : (modelStep mt (.retain t q p)).1 = mt := by
-  have hd' : checkSys ({ topic := t, qos := q, payload := p } : RMsg).topic = true := hd
+    (hd : checkTopic t = true) : (modelStep mt (.retain t q p)).1 = mt := by
+  have hd' : checkTopic ({ topic := t, qos := q, payload := p } : RMsg).topic = true := hd
   simp only [modelStep, retain_of_sys _ _ hd']
+
+theorem validName_nil : validName [] = false := by decide
 
 theorem step_rinv_any (mt : MemTopics) (rets : List Ret) (op : Op) (hg : okOp op = true)
     (h : RInv mt.rroot rets) : RInv (modelStep mt op).1.rroot (specRets rets op) := by
-  cases hd : dollar (opTopic op) with
+  cases hc : checkTopic (opTopic op) with
   | false =>
+    obtain ⟨hne, hd⟩ := (checkTopic_false_iff _).mp hc
     apply step_rinv mt rets op _ h
     simp only [okOp, Bool.and_eq_true] at hg
     simp only [goodOp, Bool.and_eq_true]
-    exact ⟨good_of _ hg.1 hd, hg.2⟩
+    rcases admitted_cases _ hg.1 with hn | hn
+    · refine ⟨good_of _ hn hd, ?_⟩
+      cases op with
+      | retain t q p =>
+        simp only [opTopic] at hne
+        have : t.isEmpty = false := by simpa using hne
+        simpa [this] using hg.2
+      | _ => rfl
+    · exact absurd hn hne
   | true =>
     cases op with
     | sub f q sub => rw [modelStep_sub_rroot]; exact h
@@ -200,9 +214,14 @@ theorem step_rinv_any (mt : MemTopics) (rets : List Ret) (op : Op) (hg : okOp op
     | subs t q => rw [modelStep_subs]; exact h
     | retained f => rw [modelStep_retained]; exact h
     | retain t q p =>
-      simp only [opTopic] at hd
-      rw [modelStep_retain_sys _ _ _ _ hd]
-      simp only [specRets, hd, Bool.true_or, ↓reduceIte]
+      simp only [opTopic] at hc
+      rw [modelStep_retain_sys _ _ _ _ hc]
+      have : (dollar t || !validName t) = true := by
+        rw [checkTopic_eq, Bool.or_eq_true, List.isEmpty_iff] at hc
+        rcases hc with rfl | hc
+        · simp [validName_nil]
+        · simp [hc]
+      simp only [specRets, this, ↓reduceIte]
       exact h
 
 theorem run_rinv_any_aux (ops : List Op) :
@@ -218,9 +237,9 @@ theorem run_rinv_any_aux (ops : List Op) :
     rw [step_rets]
     exact step_rinv_any mt s.rets op (hg op (by simp)) h
 
-/-- after any history without empty levels whose retained topics are valid
-names - operations on topics beginning with '$' included - the retained trie
-refines the abstract store -/
+/-- after any history of admitted topics (no empty level, or the empty topic)
+whose retained topics are valid names or empty - operations on topics beginning
+with '$' included - the retained trie refines the abstract store -/
 theorem run_rinv_any (ops : List Op) (hg : ∀ op ∈ ops, okOp op = true) :
     RInv (mrun ops).rroot (srun ops).rets := by
   apply run_rinv_any_aux ops _ _ hg
@@ -249,7 +268,7 @@ theorem retained_refines (mt : MemTopics) (rets : List Ret) (f : List UInt8)
   have hvl : validFilterLevels (split f) = true := by
     simp only [validFilter, Bool.and_eq_true] at hv; exact hv.2
   refine ⟨r, ?_, ?_⟩
-  · rw [retained_of_not_sys _ _ (good_checkSys f hg)]
+  · rw [retained_of_not_sys _ _ (good_checkTopic f hg)]
     simp only [RNode.rmatch]
     rw [← e1, ← e2] at hr
     exact hr
